@@ -29,7 +29,7 @@ ASSUMPTIONS = [
     "bitwise comparison: the library is deterministic for a fixed request; 'equal to 1e-12 but not bitwise' is counted separately as ulp_diff and is not a violation (observed 0)",
     "LinearOperator outputs (implicit mode) are compared through their dense action on the identity",
 ]
-BUDGET = {"quick": dict(cases=900, seconds=75), "thorough": dict(cases=12000, seconds=560)}
+BUDGET = {"quick": dict(cases=900, seconds=300), "thorough": dict(cases=12000, seconds=560)}
 CASE_TIMEOUT = 240
 MONITORS = {"poison": True, "solvers": False, "product": False}
 MONITOR_VERDICTS = ("pending", "write")
